@@ -1285,3 +1285,1053 @@ pub proof fn lemma_chunk_completable(s: Seq<u8>)
         }
     }
 }
+
+// ---- header block: explicit completion of a Partial block.  comp_* mirror the oracle's recursion; each returns the bytes to
+// append so that the open line is closed (as a header, or as a dropped line) and the empty line follows.
+pub open spec fn crlf() -> Seq<u8> { seq![0x0du8, 0x0a] }
+pub open spec fn lf_crlf() -> Seq<u8> { seq![0x0au8, 0x0d, 0x0a] }
+pub open spec fn crlf_crlf() -> Seq<u8> { seq![0x0du8, 0x0a, 0x0d, 0x0a] }
+pub open spec fn colon_crlf_crlf() -> Seq<u8> { seq![0x3au8, 0x0d, 0x0a, 0x0d, 0x0a] }
+
+pub open spec fn comp_skip(s: Seq<u8>, q: int) -> Seq<u8>
+    decreases s.len() - q
+{
+    if q < 0 || q >= s.len() { lf_crlf() }
+    else if s[q] == 0x0d { lf_crlf() }
+    else { comp_skip(s, q + 1) }
+}
+// a line closed by the completion: the oracle's line result continues at n, and the empty line CRLF is exactly what remains
+pub open spec fn closes(u: Seq<u8>, l: LineRes) -> bool {
+    match l {
+        LineRes::Header(h, n) => 0 <= n && n + 2 == u.len() && u[n] == 0x0d && u[n + 1] == 0x0a,
+        LineRes::Skip(n) => 0 <= n && n + 2 == u.len() && u[n] == 0x0d && u[n + 1] == 0x0a,
+        _ => false,
+    }
+}
+pub proof fn lemma_skip_completable(s: Seq<u8>, q: int, e: Error)
+    requires 0 <= q <= s.len(), spec_skip(s, q, e) is Partial,
+    ensures closes(s + comp_skip(s, q), spec_skip(s + comp_skip(s, q), q, e)), spec_skip(s + comp_skip(s, q), q, e) is Skip,
+    decreases s.len() - q
+{
+    let t = comp_skip(s, q);
+    lemma_append_index(s, t);
+    if q >= s.len() {
+        assert((s + t)[s.len() as int] == t[0]);
+        assert((s + t)[s.len() as int + 1] == t[1]);
+        assert((s + t)[s.len() as int + 2] == t[2]);
+        lemma_skip_at_end(s, t, q, e);
+    } else if s[q] == 0x0d {
+        assert(q + 1 == s.len());
+        assert((s + t)[q + 1] == t[0] && (s + t)[q + 2] == t[1] && (s + t)[q + 3] == t[2]);
+    } else {
+        lemma_skip_completable(s, q + 1, e);
+    }
+}
+// scanning a dropped line from a position at or beyond the end of s continues into the appended bytes
+pub proof fn lemma_skip_at_end(s: Seq<u8>, t: Seq<u8>, q: int, e: Error)
+    requires q >= s.len(), t == lf_crlf(),
+    ensures q == s.len() ==> spec_skip(s + t, q, e) == LineRes::Skip(q + 1),
+{
+    lemma_append_index(s, t);
+    if q == s.len() { assert((s + t)[q] == t[0]); }
+}
+
+pub open spec fn comp_vlines(s: Seq<u8>, from: int, cfg: HCfg) -> Seq<u8>
+    decreases s.len() - from
+{
+    let e = first_not(cls_hval(), s, from);
+    if from < 0 || e < from || e >= s.len() { crlf_crlf() }
+    else {
+        let n = if s[e] == 0x0a { e + 1 } else { e + 2 };
+        if s[e] == 0x0d && e + 1 >= s.len() { lf_crlf() }
+        else if s[e] != 0x0d && s[e] != 0x0a { comp_skip(s, e) }
+        else if cfg.fold && n >= s.len() { crlf() }
+        else if cfg.fold && is_spht(s[n]) { comp_vlines(s, n, cfg) }
+        else { Seq::empty() }
+    }
+}
+pub proof fn lemma_vlines_completable(s: Seq<u8>, nlo: int, nhi: int, v0: int, from: int, cfg: HCfg)
+    requires 0 <= from <= s.len(), spec_vlines(s, nlo, nhi, v0, from, cfg) is Partial,
+    ensures closes(s + comp_vlines(s, from, cfg), spec_vlines(s + comp_vlines(s, from, cfg), nlo, nhi, v0, from, cfg)),
+    decreases s.len() - from
+{
+    let t = comp_vlines(s, from, cfg);
+    let u = s + t;
+    lemma_append_index(s, t);
+    lemma_first_not_props(cls_hval(), s, from);
+    let e = first_not(cls_hval(), s, from);
+    if e >= s.len() {
+        lemma_run_then_stop(cls_hval(), s, t, from);
+        assert(u[e] == t[0] && u[e + 1] == t[1] && u[e + 2] == t[2] && u[e + 3] == t[3]);
+    } else {
+        lemma_first_not_append(cls_hval(), s, t, from);
+        assert(u[e] == s[e]);
+        let n = if s[e] == 0x0a { e + 1 } else { e + 2 };
+        if s[e] == 0x0d && e + 1 >= s.len() {
+            assert(u[e + 1] == t[0] && u[e + 2] == t[1] && u[e + 3] == t[2]);
+        } else if s[e] != 0x0d && s[e] != 0x0a {
+            lemma_skip_completable(s, e, Error::HeaderValue);
+        } else {
+            if s[e] == 0x0d { assert(u[e + 1] == s[e + 1]); }
+            if cfg.fold && n >= s.len() {
+                assert(u[n] == t[0] && u[n + 1] == t[1]);
+            } else if cfg.fold && is_spht(s[n]) {
+                assert(u[n] == s[n]);
+                lemma_vlines_completable(s, nlo, nhi, v0, n, cfg);
+            }
+        }
+    }
+}
+pub open spec fn comp_ws(s: Seq<u8>, c: int, cfg: HCfg) -> Seq<u8>
+    decreases s.len() - c
+{
+    if c < 0 || c >= s.len() { crlf_crlf() }
+    else if is_spht(s[c]) { comp_ws(s, c + 1, cfg) }
+    else if is_hval(s[c]) { comp_vlines(s, c, cfg) }
+    else {
+        let n = if s[c] == 0x0a { c + 1 } else { c + 2 };
+        if s[c] == 0x0d && c + 1 >= s.len() { lf_crlf() }
+        else if s[c] != 0x0d && s[c] != 0x0a { comp_skip(s, c) }
+        else if cfg.fold && n >= s.len() { crlf() }
+        else if cfg.fold && is_spht(s[n]) { comp_ws(s, n, cfg) }
+        else { Seq::empty() }
+    }
+}
+pub proof fn lemma_ws_completable(s: Seq<u8>, nlo: int, nhi: int, c: int, cfg: HCfg)
+    requires 0 <= c <= s.len(), spec_ws(s, nlo, nhi, c, cfg) is Partial,
+    ensures closes(s + comp_ws(s, c, cfg), spec_ws(s + comp_ws(s, c, cfg), nlo, nhi, c, cfg)),
+    decreases s.len() - c
+{
+    let t = comp_ws(s, c, cfg);
+    let u = s + t;
+    lemma_append_index(s, t);
+    if c >= s.len() {
+        assert(u[c] == t[0] && u[c + 1] == t[1] && u[c + 2] == t[2] && u[c + 3] == t[3]);
+    } else {
+        assert(u[c] == s[c]);
+        if is_spht(s[c]) { lemma_ws_completable(s, nlo, nhi, c + 1, cfg); }
+        else if is_hval(s[c]) { lemma_vlines_completable(s, nlo, nhi, c, c, cfg); }
+        else {
+            let n = if s[c] == 0x0a { c + 1 } else { c + 2 };
+            if s[c] == 0x0d && c + 1 >= s.len() {
+                assert(u[c + 1] == t[0] && u[c + 2] == t[1] && u[c + 3] == t[2]);
+            } else if s[c] != 0x0d && s[c] != 0x0a {
+                lemma_skip_completable(s, c, Error::HeaderValue);
+            } else {
+                if s[c] == 0x0d { assert(u[c + 1] == s[c + 1]); }
+                if cfg.fold && n >= s.len() {
+                    assert(u[n] == t[0] && u[n + 1] == t[1]);
+                } else if cfg.fold && is_spht(s[n]) {
+                    assert(u[n] == s[n]);
+                    lemma_ws_completable(s, nlo, nhi, n, cfg);
+                }
+            }
+        }
+    }
+}
+pub open spec fn comp_name_ws(s: Seq<u8>, q: int, cfg: HCfg) -> Seq<u8>
+    decreases s.len() - q
+{
+    if q < 0 || q >= s.len() { colon_crlf_crlf() }
+    else if !is_spht(s[q]) { comp_skip(s, q) }
+    else if q + 1 >= s.len() { colon_crlf_crlf() }
+    else if s[q + 1] == 0x3a { comp_ws(s, q + 2, cfg) }
+    else { comp_name_ws(s, q + 1, cfg) }
+}
+pub proof fn lemma_name_ws_completable(s: Seq<u8>, nlo: int, nhi: int, q: int, cfg: HCfg)
+    requires 0 <= q < s.len(), spec_name_ws(s, nlo, nhi, q, cfg) is Partial,
+    ensures closes(s + comp_name_ws(s, q, cfg), spec_name_ws(s + comp_name_ws(s, q, cfg), nlo, nhi, q, cfg)),
+    decreases s.len() - q
+{
+    let t = comp_name_ws(s, q, cfg);
+    let u = s + t;
+    lemma_append_index(s, t);
+    assert(u[q] == s[q]);
+    if !is_spht(s[q]) { lemma_skip_completable(s, q, Error::HeaderName); }
+    else if q + 1 >= s.len() {
+        assert(u[q + 1] == t[0] && u[q + 2] == t[1] && u[q + 3] == t[2] && u[q + 4] == t[3] && u[q + 5] == t[4]);
+        reveal_with_fuel(spec_ws, 2);
+    }
+    else {
+        assert(u[q + 1] == s[q + 1]);
+        if s[q + 1] == 0x3a { lemma_ws_completable(s, nlo, nhi, q + 2, cfg); }
+        else { lemma_name_ws_completable(s, nlo, nhi, q + 1, cfg); }
+    }
+}
+pub open spec fn comp_line(s: Seq<u8>, p: int, first: bool, cfg: HCfg) -> Seq<u8> {
+    if p < 0 || p >= s.len() { crlf() }
+    else if s[p] == 0x0d { seq![0x0au8] }
+    else if !is_tchar(s[p]) { comp_skip(s, p) }
+    else {
+        let e = first_not(cls_tchar(), s, p);
+        if e >= s.len() { colon_crlf_crlf() }
+        else if s[e] == 0x3a { comp_ws(s, e + 1, cfg) }
+        else if cfg.sp_after_name { comp_name_ws(s, e, cfg) }
+        else { comp_skip(s, e) }
+    }
+}
+pub proof fn lemma_line_completable(s: Seq<u8>, p: int, first: bool, cfg: HCfg)
+    requires 0 <= p <= s.len(), spec_line(s, p, first, cfg) is Partial,
+    ensures ({
+        let u = s + comp_line(s, p, first, cfg);
+        let l = spec_line(u, p, first, cfg);
+        &&& (l == LineRes::End(u.len() as int) || closes(u, l))
+        &&& (l is Header ==> p < s.len() && is_tchar(s[p]))
+    })
+{
+    let t = comp_line(s, p, first, cfg);
+    let u = s + t;
+    lemma_append_index(s, t);
+    if p >= s.len() {
+        assert(u[p] == t[0] && u[p + 1] == t[1]);
+    } else {
+        assert(u[p] == s[p]);
+        if s[p] == 0x0d { assert(u[p + 1] == t[0]); }
+        else if !is_tchar(s[p]) { lemma_skip_completable(s, p, Error::HeaderName); }
+        else {
+            lemma_first_not_props(cls_tchar(), s, p);
+            let e = first_not(cls_tchar(), s, p);
+            if e >= s.len() {
+                lemma_run_then_stop(cls_tchar(), s, t, p);
+                assert(u[e] == t[0] && u[e + 1] == t[1] && u[e + 2] == t[2] && u[e + 3] == t[3] && u[e + 4] == t[4]);
+                reveal_with_fuel(spec_ws, 2);
+            } else {
+                lemma_first_not_append(cls_tchar(), s, t, p);
+                assert(u[e] == s[e]);
+                if s[e] == 0x3a { lemma_ws_completable(s, p, e, e + 1, cfg); }
+                else if cfg.sp_after_name { lemma_name_ws_completable(s, p, e, e, cfg); }
+                else { lemma_skip_completable(s, e, Error::HeaderName); }
+            }
+        }
+    }
+}
+// the second exception of C11: the array is already full and a further header line (one that starts with a name byte) is open
+pub open spec fn full_and_open(s: Seq<u8>, p: int, acc: Seq<SHdr>, cfg: HCfg, cap: int) -> bool
+    decreases s.len() - p
+    when p >= 0
+    via full_and_open_decreases
+{
+    match spec_line(s, p, acc.len() == 0, cfg) {
+        LineRes::Header(h, n) => acc.len() < cap && full_and_open(s, n, acc.push(h), cfg, cap),
+        LineRes::Skip(n) => full_and_open(s, n, acc, cfg, cap),
+        LineRes::Partial => acc.len() >= cap && p < s.len() && is_tchar(s[p]),
+        _ => false,
+    }
+}
+#[via_fn]
+proof fn full_and_open_decreases(s: Seq<u8>, p: int, acc: Seq<SHdr>, cfg: HCfg, cap: int) {
+    lemma_line_progress(s, p, acc.len() == 0, cfg);
+}
+pub open spec fn comp_hdrs(s: Seq<u8>, p: int, acc: Seq<SHdr>, cfg: HCfg, cap: int) -> Seq<u8>
+    decreases s.len() - p
+    when p >= 0
+    via comp_hdrs_decreases
+{
+    match spec_line(s, p, acc.len() == 0, cfg) {
+        LineRes::Header(h, n) => if acc.len() >= cap { Seq::empty() } else { comp_hdrs(s, n, acc.push(h), cfg, cap) },
+        LineRes::Skip(n) => comp_hdrs(s, n, acc, cfg, cap),
+        LineRes::Partial => comp_line(s, p, acc.len() == 0, cfg),
+        _ => Seq::empty(),
+    }
+}
+#[via_fn]
+proof fn comp_hdrs_decreases(s: Seq<u8>, p: int, acc: Seq<SHdr>, cfg: HCfg, cap: int) {
+    lemma_line_progress(s, p, acc.len() == 0, cfg);
+}
+// @tags C11
+pub proof fn lemma_hdrs_completable(s: Seq<u8>, p: int, acc: Seq<SHdr>, cfg: HCfg, cap: int)
+    requires 0 <= p <= s.len(), spec_hdrs(s, p, acc, cfg, cap) is Partial, !full_and_open(s, p, acc, cfg, cap),
+    ensures spec_hdrs(s + comp_hdrs(s, p, acc, cfg, cap), p, acc, cfg, cap) is Complete,
+    decreases s.len() - p
+{
+    let t = comp_hdrs(s, p, acc, cfg, cap);
+    let u = s + t;
+    let first = acc.len() == 0;
+    lemma_line_progress(s, p, first, cfg);
+    match spec_line(s, p, first, cfg) {
+        LineRes::Header(h, n) => {
+            lemma_line_stable(s, t, p, first, cfg);
+            lemma_hdrs_completable(s, n, acc.push(h), cfg, cap);
+        }
+        LineRes::Skip(n) => {
+            lemma_line_stable(s, t, p, first, cfg);
+            lemma_hdrs_completable(s, n, acc, cfg, cap);
+        }
+        LineRes::Partial => {
+            reveal_with_fuel(spec_hdrs, 3);
+            lemma_line_completable(s, p, first, cfg);
+            lemma_line_progress(u, p, first, cfg);
+            match spec_line(u, p, first, cfg) {
+                LineRes::Header(h, n) => { lemma_line_progress(u, n, false, cfg); }
+                LineRes::Skip(n) => { lemma_line_progress(u, n, first, cfg); }
+                _ => {}
+            }
+        }
+        _ => {}
+    }
+}
+
+// ---- start line: canonical tails and their evaluation at a symbolic offset
+pub open spec fn t_ver() -> Seq<u8> { seq![0x48u8, 0x54, 0x54, 0x50, 0x2f, 0x31, 0x2e, 0x31, 0x0d, 0x0a, 0x0d, 0x0a] }   // "HTTP/1.1\r\n\r\n"
+pub open spec fn t_uri() -> Seq<u8> { seq![0x2fu8, 0x20] + t_ver() }                                                    // "/ HTTP/1.1\r\n\r\n"
+pub open spec fn t_sp_uri() -> Seq<u8> { seq![0x20u8] + t_uri() }                                                        // " / HTTP/1.1\r\n\r\n"
+pub open spec fn t_all() -> Seq<u8> { seq![0x41u8] + t_sp_uri() }                                                        // "A / HTTP/1.1\r\n\r\n"
+pub open spec fn tail_is(u: Seq<u8>, i: int, t: Seq<u8>) -> bool { 0 <= i && i + t.len() == u.len() && u.subrange(i, u.len() as int) == t }
+
+pub proof fn lemma_tail_index(u: Seq<u8>, i: int, t: Seq<u8>)
+    requires tail_is(u, i, t),
+    ensures forall|k: int| 0 <= k < t.len() ==> #[trigger] u[i + k] == t[k],
+{
+    assert forall|k: int| 0 <= k < t.len() implies #[trigger] u[i + k] == t[k] by { assert(u.subrange(i, u.len() as int)[k] == u[i + k]); }
+}
+// from the empty line that ends the head: the header block at i is just CRLF
+pub proof fn lemma_tail_hdrs(u: Seq<u8>, i: int, cfg: HCfg, cap: int)
+    requires tail_is(u, i, crlf()),
+    ensures spec_hdrs(u, i, Seq::empty(), cfg, cap) == SRes::Complete(Seq::<SHdr>::empty(), i + 2)
+{
+    lemma_tail_index(u, i, crlf());
+    assert(u[i + 0] == 0x0d && u[i + 1] == 0x0a);
+}
+pub proof fn lemma_tail_eol(u: Seq<u8>, i: int, e: Error, cfg: HCfg, cap: int)
+    requires tail_is(u, i, crlf_crlf()),
+    ensures spec_eol(u, i, e) == SRes::Complete((), i + 2), spec_hdrs(u, i + 2, Seq::empty(), cfg, cap) == SRes::Complete(Seq::<SHdr>::empty(), i + 4)
+{
+    lemma_tail_index(u, i, crlf_crlf());
+    assert(u[i + 0] == 0x0d && u[i + 1] == 0x0a && u[i + 2] == 0x0d && u[i + 3] == 0x0a);
+    assert(u.subrange(i + 2, u.len() as int) =~= crlf());
+    lemma_tail_hdrs(u, i + 2, cfg, cap);
+}
+pub proof fn lemma_tail_ver(u: Seq<u8>, i: int, multi: bool, cfg: HCfg, cap: int)
+    requires tail_is(u, i, t_ver()),
+    ensures opt_spaces(multi, u, i) == SRes::Complete((), i), spec_version(u, i) == SRes::Complete(1u8, i + 8),
+        spec_eol(u, i + 8, Error::NewLine) == SRes::Complete((), i + 10),
+        spec_hdrs(u, i + 10, Seq::empty(), cfg, cap) == SRes::Complete(Seq::<SHdr>::empty(), i + 12)
+{
+    lemma_tail_index(u, i, t_ver());
+    assert(u[i + 0] == 0x48 && u[i + 1] == 0x54 && u[i + 2] == 0x54 && u[i + 3] == 0x50 && u[i + 4] == 0x2f && u[i + 5] == 0x31 && u[i + 6] == 0x2e && u[i + 7] == 0x31);
+    lemma_first_not_char(cls_sp(), u, i, i);
+    assert(agrees_lit(u, i, 7));
+    assert(u.subrange(i + 8, u.len() as int) =~= crlf_crlf());
+    lemma_tail_eol(u, i + 8, Error::NewLine, cfg, cap);
+}
+pub proof fn lemma_tail_uri(u: Seq<u8>, i: int, multi: bool, cfg: HCfg, cap: int)
+    requires tail_is(u, i, t_uri()),
+    ensures opt_spaces(multi, u, i) == SRes::Complete((), i), spec_uri(u, i) == SRes::Complete((i, i + 1), i + 2),
+        opt_spaces(multi, u, i + 2) == SRes::Complete((), i + 2), spec_version(u, i + 2) == SRes::Complete(1u8, i + 10),
+        spec_eol(u, i + 10, Error::NewLine) == SRes::Complete((), i + 12),
+        spec_hdrs(u, i + 12, Seq::empty(), cfg, cap) == SRes::Complete(Seq::<SHdr>::empty(), i + 14)
+{
+    lemma_tail_index(u, i, t_uri());
+    assert(u[i + 0] == 0x2f && u[i + 1] == 0x20);
+    lemma_first_not_char(cls_sp(), u, i, i);
+    assert(cls_uri()(u[i]));
+    lemma_first_not_char(cls_uri(), u, i, i + 1);
+    assert(u.subrange(i, i + 1) =~= seq![0x2fu8]);
+    assert(all_ascii(seq![0x2fu8]));
+    axiom_ascii_is_utf8(seq![0x2fu8]);
+    assert(t_uri().subrange(2, t_uri().len() as int) =~= t_ver());
+    assert(u.subrange(i + 2, u.len() as int) =~= u.subrange(i, u.len() as int).subrange(2, t_uri().len() as int));
+    lemma_tail_ver(u, i + 2, multi, cfg, cap);
+}
+pub proof fn lemma_tail_all(u: Seq<u8>, i: int, multi: bool, cfg: HCfg, cap: int)
+    requires tail_is(u, i, t_all()),
+    ensures spec_token(u, i) == SRes::Complete((i, i + 1), i + 2), tail_is(u, i + 2, t_uri()),
+{
+    lemma_tail_index(u, i, t_all());
+    assert(u[i + 0] == 0x41 && u[i + 1] == 0x20);
+    assert(cls_tchar()(u[i]));
+    lemma_first_not_char(cls_tchar(), u, i, i + 1);
+    assert(t_all().subrange(2, t_all().len() as int) =~= t_uri());
+    assert(u.subrange(i + 2, u.len() as int) =~= u.subrange(i, u.len() as int).subrange(2, t_all().len() as int));
+}
+
+pub open spec fn comp_el(s: Seq<u8>, i: int) -> Seq<u8>
+    decreases s.len() - i
+{
+    if i < 0 || i >= s.len() { t_all() }
+    else if s[i] == 0x0d {
+        if i + 1 >= s.len() { seq![0x0au8] + t_all() } else if s[i + 1] == 0x0a { comp_el(s, i + 2) } else { Seq::empty() }
+    }
+    else if s[i] == 0x0a { comp_el(s, i + 1) }
+    else { Seq::empty() }
+}
+pub proof fn lemma_el_completable(s: Seq<u8>, i: int)
+    requires 0 <= i <= s.len(), spec_empty_lines(s, i) is Partial,
+    ensures spec_empty_lines(s + comp_el(s, i), i) matches SRes::Complete(_, k) && tail_is(s + comp_el(s, i), k, t_all()),
+    decreases s.len() - i
+{
+    let t = comp_el(s, i);
+    let u = s + t;
+    lemma_append_index(s, t);
+    if i >= s.len() {
+        assert(u[i] == t[0]);
+        assert(u.subrange(i, u.len() as int) =~= t_all());
+    } else {
+        assert(u[i] == s[i]);
+        if s[i] == 0x0d {
+            if i + 1 >= s.len() {
+                assert(u[i + 1] == t[0]);
+                assert(u[i + 2] == t[1]);
+                assert(u.subrange(i + 2, u.len() as int) =~= t_all());
+                reveal_with_fuel(spec_empty_lines, 2);
+            } else { assert(u[i + 1] == s[i + 1]); lemma_el_completable(s, i + 2); }
+        } else { lemma_el_completable(s, i + 1); }
+    }
+}
+pub open spec fn lit8() -> Seq<u8> { seq![0x48u8, 0x54, 0x54, 0x50, 0x2f, 0x31, 0x2e, 0x31] }
+pub open spec fn comp_ver(s: Seq<u8>, c: int) -> Seq<u8> {
+    let avail = s.len() - c;
+    if 0 <= avail < 8 { lit8().subrange(avail, 8) + crlf_crlf() } else { Seq::empty() }
+}
+pub proof fn lemma_ver_completable(s: Seq<u8>, c: int)
+    requires 0 <= c <= s.len(), spec_version(s, c) is Partial,
+    ensures spec_version(s + comp_ver(s, c), c) == SRes::Complete(1u8, c + 8), tail_is(s + comp_ver(s, c), c + 8, crlf_crlf()),
+{
+    let t = comp_ver(s, c);
+    let u = s + t;
+    let avail = s.len() - c;
+    lemma_append_index(s, t);
+    assert(avail < 8);
+    let m = if avail < 7 { avail } else { 7 };
+    assert(agrees_lit(s, c, m));
+    assert forall|k: int| 0 <= k < 8 implies #[trigger] u[c + k] == lit8()[k] by {
+        if k < avail { assert(u[c + k] == s[c + k]); if k < 7 { assert(s[c + k] == http1_lit()[k]); } }
+        else { assert(u[c + k] == t[k - avail]); assert(t[k - avail] == lit8().subrange(avail, 8)[k - avail]); }
+    }
+    // with exactly 7 bytes received the 8th comes from the completion; fewer than 7: the literal's own bytes
+    assert(agrees_lit(u, c, 7)) by { assert forall|k: int| 0 <= k < 7 implies #[trigger] u[c + k] == http1_lit()[k] by { assert(u[c + k] == lit8()[k]); } }
+    assert(u[c + 7] == lit8()[7]);
+    assert(u.subrange(c + 8, u.len() as int) =~= crlf_crlf());
+}
+pub open spec fn comp_eol(s: Seq<u8>, c: int) -> Seq<u8> { if c >= s.len() { crlf_crlf() } else { lf_crlf() } }
+pub proof fn lemma_eol_completable(s: Seq<u8>, c: int, e: Error)
+    requires 0 <= c <= s.len(), spec_eol(s, c, e) is Partial,
+    ensures spec_eol(s + comp_eol(s, c), c, e) matches SRes::Complete(_, k) && tail_is(s + comp_eol(s, c), k, crlf()),
+{
+    let t = comp_eol(s, c);
+    let u = s + t;
+    lemma_append_index(s, t);
+    if c >= s.len() {
+        assert(u[c] == t[0] && u[c + 1] == t[1]);
+        assert(u.subrange(c + 2, u.len() as int) =~= crlf());
+    } else {
+        assert(u[c] == s[c]);
+        assert(u[c + 1] == t[0]);
+        assert(u.subrange(c + 2, u.len() as int) =~= crlf());
+    }
+}
+pub open spec fn req_hcfg(sbf: bool, ign: bool) -> HCfg { HCfg { sp_after_name: false, fold: false, sp_before_first: sbf, ignore: ign } }
+// the completion of a Partial request, stage by stage
+pub open spec fn comp_request(s: Seq<u8>, multi: bool, sbf: bool, ign: bool, cap: int) -> Seq<u8> {
+    match spec_empty_lines(s, 0) {
+        SRes::Complete(_, c0) => match spec_token(s, c0) {
+            SRes::Complete(m, c1) => match opt_spaces(multi, s, c1) {
+                SRes::Complete(_, c2) => match spec_uri(s, c2) {
+                    SRes::Complete(p, c3) => match opt_spaces(multi, s, c3) {
+                        SRes::Complete(_, c4) => match spec_version(s, c4) {
+                            SRes::Complete(v, c5) => match spec_eol(s, c5, Error::NewLine) {
+                                SRes::Complete(_, c6) => comp_hdrs(s, c6, Seq::empty(), req_hcfg(sbf, ign), cap),
+                                _ => comp_eol(s, c5),
+                            },
+                            _ => comp_ver(s, c4),
+                        },
+                        _ => t_ver(),
+                    },
+                    _ => t_uri(),
+                },
+                _ => t_uri(),
+            },
+            _ => t_sp_uri(),
+        },
+        _ => comp_el(s, 0),
+    }
+}
+// the two exceptions of C11, as predicates on the buffer
+pub open spec fn req_exception(s: Seq<u8>, multi: bool, sbf: bool, ign: bool, cap: int) -> bool {
+    match spec_empty_lines(s, 0) {
+        SRes::Complete(_, c0) => match spec_token(s, c0) {
+            SRes::Complete(m, c1) => match opt_spaces(multi, s, c1) {
+                SRes::Complete(_, c2) => match spec_uri(s, c2) {
+                    SRes::Complete(p, c3) => match opt_spaces(multi, s, c3) {
+                        SRes::Complete(_, c4) => match spec_version(s, c4) {
+                            SRes::Complete(v, c5) => match spec_eol(s, c5, Error::NewLine) {
+                                // header capacity already full and a further header line open
+                                SRes::Complete(_, c6) => full_and_open(s, c6, Seq::empty(), req_hcfg(sbf, ign), cap),
+                                _ => false,
+                            },
+                            _ => false,
+                        },
+                        _ => false,
+                    },
+                    // target not yet terminated and what is there cannot be completed to valid UTF-8 by closing it here
+                    SRes::Partial => !valid_utf8(s.subrange(c2, s.len() as int).push(0x2fu8)),
+                    _ => false,
+                },
+                _ => false,
+            },
+            _ => false,
+        },
+        _ => false,
+    }
+}
+pub open spec fn at<T>(r: SRes<T>, c: int) -> bool { r is Complete && r->Complete_1 == c }
+// one lemma per stage at which the request oracle can say Partial (keeps each query small)
+pub proof fn lemma_reqc_el(s: Seq<u8>, multi: bool, sbf: bool, ign: bool, cap: int)
+    requires spec_empty_lines(s, 0) is Partial,
+    ensures spec_request(s + comp_el(s, 0), multi, sbf, ign, cap).res is Complete
+{
+    let u = s + comp_el(s, 0);
+    let cfg = req_hcfg(sbf, ign);
+    lemma_el_completable(s, 0);
+    let k = spec_empty_lines(u, 0)->Complete_1;
+    lemma_tail_all(u, k, multi, cfg, cap);
+    lemma_tail_uri(u, k + 2, multi, cfg, cap);
+}
+pub proof fn lemma_reqc_token(s: Seq<u8>, multi: bool, sbf: bool, ign: bool, cap: int, c0: int)
+    requires at(spec_empty_lines(s, 0), c0), spec_token(s, c0) is Partial,
+    ensures spec_request(s + t_sp_uri(), multi, sbf, ign, cap).res is Complete
+{
+    let t = t_sp_uri();
+    let u = s + t;
+    let cfg = req_hcfg(sbf, ign);
+    lemma_append_index(s, t);
+    lemma_empty_lines_bounds(s, 0);
+    lemma_empty_lines_stable(s, t, 0);
+    lemma_first_not_props(cls_tchar(), s, c0);
+    assert(t[0] == 0x20);
+    lemma_run_then_stop(cls_tchar(), s, t, c0);
+    assert(u[s.len() as int] == t[0]);
+    assert(t_sp_uri().subrange(1, t_sp_uri().len() as int) =~= t_uri());
+    assert(u.subrange(s.len() as int + 1, u.len() as int) =~= t_uri());
+    lemma_tail_uri(u, s.len() as int + 1, multi, cfg, cap);
+    assert(spec_token(u, c0) == SRes::Complete((c0, s.len() as int), s.len() as int + 1));
+}
+pub proof fn lemma_reqc_sp1(s: Seq<u8>, sbf: bool, ign: bool, cap: int, c0: int, m: (int, int), c1: int)
+    requires at(spec_empty_lines(s, 0), c0), spec_token(s, c0) == SRes::Complete(m, c1), spec_spaces(s, c1) is Partial,
+    ensures spec_request(s + t_uri(), true, sbf, ign, cap).res is Complete
+{
+    let t = t_uri();
+    let u = s + t;
+    let cfg = req_hcfg(sbf, ign);
+    lemma_append_index(s, t);
+    lemma_empty_lines_bounds(s, 0);
+    lemma_empty_lines_stable(s, t, 0);
+    lemma_first_not_props(cls_tchar(), s, c0);
+    lemma_token_stable(s, t, c0);
+    lemma_first_not_props(cls_sp(), s, c1);
+    assert(t[0] == 0x2f);
+    lemma_run_then_stop(cls_sp(), s, t, c1);
+    assert(u.subrange(s.len() as int, u.len() as int) =~= t_uri());
+    lemma_tail_uri(u, s.len() as int, true, cfg, cap);
+    assert(spec_spaces(u, c1) == SRes::Complete((), s.len() as int));
+}
+pub proof fn lemma_reqc_uri(s: Seq<u8>, multi: bool, sbf: bool, ign: bool, cap: int, c0: int, m: (int, int), c1: int, c2: int)
+    requires at(spec_empty_lines(s, 0), c0), spec_token(s, c0) == SRes::Complete(m, c1), at(opt_spaces(multi, s, c1), c2),
+        spec_uri(s, c2) is Partial, valid_utf8(s.subrange(c2, s.len() as int).push(0x2fu8)),
+    ensures spec_request(s + t_uri(), multi, sbf, ign, cap).res is Complete
+{
+    let t = t_uri();
+    let u = s + t;
+    let cfg = req_hcfg(sbf, ign);
+    lemma_append_index(s, t);
+    lemma_empty_lines_bounds(s, 0);
+    lemma_empty_lines_stable(s, t, 0);
+    lemma_first_not_props(cls_tchar(), s, c0);
+    lemma_token_stable(s, t, c0);
+    if multi { lemma_first_not_props(cls_sp(), s, c1); lemma_spaces_stable(s, t, c1); }
+    lemma_first_not_props(cls_uri(), s, c2);
+    assert(t[0] == 0x2f && t[1] == 0x20);
+    lemma_run_one_more(cls_uri(), s, t, c2);
+    let j = s.len() as int + 1;
+    assert(u[j] == t[1]);
+    assert(u.subrange(c2, j) =~= s.subrange(c2, s.len() as int).push(0x2fu8));
+    assert(t_uri().subrange(2, t_uri().len() as int) =~= t_ver());
+    assert(u.subrange(j + 1, u.len() as int) =~= t_ver());
+    lemma_tail_ver(u, j + 1, multi, cfg, cap);
+    assert(spec_uri(u, c2) == SRes::Complete((c2, j), j + 1));
+}
+pub proof fn lemma_reqc_sp2(s: Seq<u8>, sbf: bool, ign: bool, cap: int, c0: int, m: (int, int), c1: int, c2: int, p: (int, int), c3: int)
+    requires at(spec_empty_lines(s, 0), c0), spec_token(s, c0) == SRes::Complete(m, c1), at(spec_spaces(s, c1), c2),
+        spec_uri(s, c2) == SRes::Complete(p, c3), spec_spaces(s, c3) is Partial,
+    ensures spec_request(s + t_ver(), true, sbf, ign, cap).res is Complete
+{
+    let t = t_ver();
+    let u = s + t;
+    let cfg = req_hcfg(sbf, ign);
+    lemma_append_index(s, t);
+    lemma_empty_lines_bounds(s, 0);
+    lemma_empty_lines_stable(s, t, 0);
+    lemma_first_not_props(cls_tchar(), s, c0);
+    lemma_token_stable(s, t, c0);
+    lemma_first_not_props(cls_sp(), s, c1);
+    lemma_spaces_stable(s, t, c1);
+    lemma_first_not_props(cls_uri(), s, c2);
+    lemma_uri_stable(s, t, c2);
+    lemma_first_not_props(cls_sp(), s, c3);
+    assert(t[0] == 0x48);
+    lemma_run_then_stop(cls_sp(), s, t, c3);
+    assert(u.subrange(s.len() as int, u.len() as int) =~= t_ver());
+    lemma_tail_ver(u, s.len() as int, true, cfg, cap);
+    assert(spec_spaces(u, c3) == SRes::Complete((), s.len() as int));
+}
+pub proof fn lemma_reqc_ver(s: Seq<u8>, multi: bool, sbf: bool, ign: bool, cap: int, c0: int, m: (int, int), c1: int, c2: int, p: (int, int), c3: int, c4: int)
+    requires at(spec_empty_lines(s, 0), c0), spec_token(s, c0) == SRes::Complete(m, c1), at(opt_spaces(multi, s, c1), c2),
+        spec_uri(s, c2) == SRes::Complete(p, c3), at(opt_spaces(multi, s, c3), c4), spec_version(s, c4) is Partial,
+    ensures spec_request(s + comp_ver(s, c4), multi, sbf, ign, cap).res is Complete
+{
+    let t = comp_ver(s, c4);
+    let u = s + t;
+    let cfg = req_hcfg(sbf, ign);
+    lemma_append_index(s, t);
+    lemma_empty_lines_bounds(s, 0);
+    lemma_empty_lines_stable(s, t, 0);
+    lemma_first_not_props(cls_tchar(), s, c0);
+    lemma_token_stable(s, t, c0);
+    if multi { lemma_first_not_props(cls_sp(), s, c1); lemma_spaces_stable(s, t, c1); }
+    lemma_first_not_props(cls_uri(), s, c2);
+    lemma_uri_stable(s, t, c2);
+    if multi { lemma_first_not_props(cls_sp(), s, c3); lemma_spaces_stable(s, t, c3); }
+    lemma_ver_completable(s, c4);
+    lemma_tail_eol(u, c4 + 8, Error::NewLine, cfg, cap);
+}
+pub proof fn lemma_reqc_eol(s: Seq<u8>, multi: bool, sbf: bool, ign: bool, cap: int, c0: int, m: (int, int), c1: int, c2: int, p: (int, int), c3: int, c4: int, v: u8, c5: int)
+    requires at(spec_empty_lines(s, 0), c0), spec_token(s, c0) == SRes::Complete(m, c1), at(opt_spaces(multi, s, c1), c2),
+        spec_uri(s, c2) == SRes::Complete(p, c3), at(opt_spaces(multi, s, c3), c4), spec_version(s, c4) == SRes::Complete(v, c5),
+        spec_eol(s, c5, Error::NewLine) is Partial,
+    ensures spec_request(s + comp_eol(s, c5), multi, sbf, ign, cap).res is Complete
+{
+    let t = comp_eol(s, c5);
+    let u = s + t;
+    let cfg = req_hcfg(sbf, ign);
+    lemma_append_index(s, t);
+    lemma_empty_lines_bounds(s, 0);
+    lemma_empty_lines_stable(s, t, 0);
+    lemma_first_not_props(cls_tchar(), s, c0);
+    lemma_token_stable(s, t, c0);
+    if multi { lemma_first_not_props(cls_sp(), s, c1); lemma_spaces_stable(s, t, c1); }
+    lemma_first_not_props(cls_uri(), s, c2);
+    lemma_uri_stable(s, t, c2);
+    if multi { lemma_first_not_props(cls_sp(), s, c3); lemma_spaces_stable(s, t, c3); }
+    lemma_version_stable(s, t, c4);
+    lemma_eol_completable(s, c5, Error::NewLine);
+    let k = spec_eol(u, c5, Error::NewLine)->Complete_1;
+    lemma_tail_hdrs(u, k, cfg, cap);
+}
+pub proof fn lemma_reqc_hdrs(s: Seq<u8>, multi: bool, sbf: bool, ign: bool, cap: int, c0: int, m: (int, int), c1: int, c2: int, p: (int, int), c3: int, c4: int, v: u8, c5: int, c6: int)
+    requires at(spec_empty_lines(s, 0), c0), spec_token(s, c0) == SRes::Complete(m, c1), at(opt_spaces(multi, s, c1), c2),
+        spec_uri(s, c2) == SRes::Complete(p, c3), at(opt_spaces(multi, s, c3), c4), spec_version(s, c4) == SRes::Complete(v, c5),
+        at(spec_eol(s, c5, Error::NewLine), c6),
+        spec_hdrs(s, c6, Seq::empty(), req_hcfg(sbf, ign), cap) is Partial, !full_and_open(s, c6, Seq::empty(), req_hcfg(sbf, ign), cap),
+    ensures spec_request(s + comp_hdrs(s, c6, Seq::empty(), req_hcfg(sbf, ign), cap), multi, sbf, ign, cap).res is Complete
+{
+    let cfg = req_hcfg(sbf, ign);
+    let t = comp_hdrs(s, c6, Seq::empty(), cfg, cap);
+    let u = s + t;
+    lemma_append_index(s, t);
+    lemma_empty_lines_bounds(s, 0);
+    lemma_empty_lines_stable(s, t, 0);
+    lemma_first_not_props(cls_tchar(), s, c0);
+    lemma_token_stable(s, t, c0);
+    if multi { lemma_first_not_props(cls_sp(), s, c1); lemma_spaces_stable(s, t, c1); }
+    lemma_first_not_props(cls_uri(), s, c2);
+    lemma_uri_stable(s, t, c2);
+    if multi { lemma_first_not_props(cls_sp(), s, c3); lemma_spaces_stable(s, t, c3); }
+    lemma_version_stable(s, t, c4);
+    lemma_eol_stable(s, t, c5, Error::NewLine);
+    lemma_hdrs_completable(s, c6, Seq::empty(), cfg, cap);
+}
+// @tags C11
+pub proof fn lemma_request_completable(s: Seq<u8>, multi: bool, sbf: bool, ign: bool, cap: int)
+    requires spec_request(s, multi, sbf, ign, cap).res is Partial, !req_exception(s, multi, sbf, ign, cap),
+    ensures spec_request(s + comp_request(s, multi, sbf, ign, cap), multi, sbf, ign, cap).res is Complete
+{
+    match spec_empty_lines(s, 0) {
+        SRes::Complete(_, c0) => match spec_token(s, c0) {
+            SRes::Complete(m, c1) => match opt_spaces(multi, s, c1) {
+                SRes::Complete(_, c2) => match spec_uri(s, c2) {
+                    SRes::Complete(p, c3) => match opt_spaces(multi, s, c3) {
+                        SRes::Complete(_, c4) => match spec_version(s, c4) {
+                            SRes::Complete(v, c5) => match spec_eol(s, c5, Error::NewLine) {
+                                SRes::Complete(_, c6) => { lemma_reqc_hdrs(s, multi, sbf, ign, cap, c0, m, c1, c2, p, c3, c4, v, c5, c6); }
+                                _ => { lemma_reqc_eol(s, multi, sbf, ign, cap, c0, m, c1, c2, p, c3, c4, v, c5); }
+                            },
+                            _ => { lemma_reqc_ver(s, multi, sbf, ign, cap, c0, m, c1, c2, p, c3, c4); }
+                        },
+                        _ => { lemma_reqc_sp2(s, sbf, ign, cap, c0, m, c1, c2, p, c3); }
+                    },
+                    _ => { lemma_reqc_uri(s, multi, sbf, ign, cap, c0, m, c1, c2); }
+                },
+                _ => { lemma_reqc_sp1(s, sbf, ign, cap, c0, m, c1); }
+            },
+            _ => { lemma_reqc_token(s, multi, sbf, ign, cap, c0); }
+        },
+        _ => { lemma_reqc_el(s, multi, sbf, ign, cap); }
+    }
+}
+// ---- response: canonical tails
+pub open spec fn r_code() -> Seq<u8> { seq![0x32u8, 0x30, 0x30, 0x0d, 0x0a, 0x0d, 0x0a] }                 // "200\r\n\r\n"
+pub open spec fn r_sp_code() -> Seq<u8> { seq![0x20u8] + r_code() }                                        // " 200\r\n\r\n"
+pub open spec fn r_all() -> Seq<u8> { lit8() + r_sp_code() }                                               // "HTTP/1.1 200\r\n\r\n"
+pub open spec fn resp_hcfg(san: bool, fold: bool, sbf: bool, ign: bool) -> HCfg { HCfg { sp_after_name: san, fold: fold, sp_before_first: sbf, ignore: ign } }
+
+// after the code: the line end, then the empty line
+pub proof fn lemma_rtail_after_code(u: Seq<u8>, i: int, multi: bool, cfg: HCfg, cap: int)
+    requires tail_is(u, i, crlf_crlf()),
+    ensures spec_after_code(u, i, multi) == SRes::Complete((i + 2, i + 2, false), i + 2),
+        spec_hdrs(u, i + 2, Seq::empty(), cfg, cap) == SRes::Complete(Seq::<SHdr>::empty(), i + 4)
+{
+    lemma_tail_eol(u, i, Error::Status, cfg, cap);
+    lemma_tail_index(u, i, crlf_crlf());
+    assert(u[i + 0] == 0x0d);
+}
+pub proof fn lemma_rtail_code(u: Seq<u8>, i: int, multi: bool, cfg: HCfg, cap: int)
+    requires tail_is(u, i, r_code()),
+    ensures opt_spaces(multi, u, i) == SRes::Complete((), i), spec_code(u, i) == SRes::Complete(200u16, i + 3), tail_is(u, i + 3, crlf_crlf()),
+{
+    lemma_tail_index(u, i, r_code());
+    assert(u[i + 0] == 0x32 && u[i + 1] == 0x30 && u[i + 2] == 0x30);
+    lemma_first_not_char(cls_sp(), u, i, i);
+    assert(r_code().subrange(3, 7) =~= crlf_crlf());
+    assert(u.subrange(i + 3, u.len() as int) =~= u.subrange(i, u.len() as int).subrange(3, 7));
+}
+pub proof fn lemma_rtail_sp_code(u: Seq<u8>, i: int)
+    requires tail_is(u, i, r_sp_code()),
+    ensures one_sp(u, i, Error::Version) == SRes::Complete((), i + 1), tail_is(u, i + 1, r_code()),
+{
+    lemma_tail_index(u, i, r_sp_code());
+    assert(u[i + 0] == 0x20);
+    assert(r_sp_code().subrange(1, 8) =~= r_code());
+    assert(u.subrange(i + 1, u.len() as int) =~= u.subrange(i, u.len() as int).subrange(1, 8));
+}
+pub proof fn lemma_rtail_all(u: Seq<u8>, i: int)
+    requires tail_is(u, i, r_all()),
+    ensures spec_version(u, i) == SRes::Complete(1u8, i + 8), tail_is(u, i + 8, r_sp_code()),
+{
+    lemma_tail_index(u, i, r_all());
+    assert(u[i + 0] == 0x48 && u[i + 1] == 0x54 && u[i + 2] == 0x54 && u[i + 3] == 0x50 && u[i + 4] == 0x2f && u[i + 5] == 0x31 && u[i + 6] == 0x2e && u[i + 7] == 0x31);
+    assert(agrees_lit(u, i, 7));
+    assert(r_all().subrange(8, 16) =~= r_sp_code());
+    assert(u.subrange(i + 8, u.len() as int) =~= u.subrange(i, u.len() as int).subrange(8, 16));
+}
+// the whole remaining response from the SP after the version
+pub proof fn lemma_rtail_chain(u: Seq<u8>, i: int, multi: bool, cfg: HCfg, cap: int)
+    requires tail_is(u, i, r_code()),
+    ensures opt_spaces(multi, u, i) == SRes::Complete((), i), spec_code(u, i) == SRes::Complete(200u16, i + 3),
+        spec_after_code(u, i + 3, multi) == SRes::Complete((i + 5, i + 5, false), i + 5),
+        spec_hdrs(u, i + 5, Seq::empty(), cfg, cap) == SRes::Complete(Seq::<SHdr>::empty(), i + 7)
+{
+    lemma_rtail_code(u, i, multi, cfg, cap);
+    lemma_rtail_after_code(u, i + 3, multi, cfg, cap);
+}
+
+pub open spec fn comp_el_r(s: Seq<u8>, i: int) -> Seq<u8>
+    decreases s.len() - i
+{
+    if i < 0 || i >= s.len() { r_all() }
+    else if s[i] == 0x0d {
+        if i + 1 >= s.len() { seq![0x0au8] + r_all() } else if s[i + 1] == 0x0a { comp_el_r(s, i + 2) } else { Seq::empty() }
+    }
+    else if s[i] == 0x0a { comp_el_r(s, i + 1) }
+    else { Seq::empty() }
+}
+pub proof fn lemma_el_r_completable(s: Seq<u8>, i: int)
+    requires 0 <= i <= s.len(), spec_empty_lines(s, i) is Partial,
+    ensures spec_empty_lines(s + comp_el_r(s, i), i) matches SRes::Complete(_, k) && tail_is(s + comp_el_r(s, i), k, r_all()),
+    decreases s.len() - i
+{
+    let t = comp_el_r(s, i);
+    let u = s + t;
+    lemma_append_index(s, t);
+    if i >= s.len() {
+        assert(u[i] == t[0]);
+        assert(u.subrange(i, u.len() as int) =~= r_all());
+    } else {
+        assert(u[i] == s[i]);
+        if s[i] == 0x0d {
+            if i + 1 >= s.len() {
+                assert(u[i + 1] == t[0]);
+                assert(u[i + 2] == t[1]);
+                assert(u.subrange(i + 2, u.len() as int) =~= r_all());
+                reveal_with_fuel(spec_empty_lines, 2);
+            } else { assert(u[i + 1] == s[i + 1]); lemma_el_r_completable(s, i + 2); }
+        } else { lemma_el_r_completable(s, i + 1); }
+    }
+}
+pub open spec fn comp_ver_r(s: Seq<u8>, c: int) -> Seq<u8> {
+    let avail = s.len() - c;
+    if 0 <= avail < 8 { lit8().subrange(avail, 8) + r_sp_code() } else { Seq::empty() }
+}
+pub proof fn lemma_ver_r_completable(s: Seq<u8>, c: int)
+    requires 0 <= c <= s.len(), spec_version(s, c) is Partial,
+    ensures spec_version(s + comp_ver_r(s, c), c) == SRes::Complete(1u8, c + 8), tail_is(s + comp_ver_r(s, c), c + 8, r_sp_code()),
+{
+    let t = comp_ver_r(s, c);
+    let u = s + t;
+    let avail = s.len() - c;
+    lemma_append_index(s, t);
+    let m = if avail < 7 { avail } else { 7 };
+    assert(agrees_lit(s, c, m));
+    assert forall|k: int| 0 <= k < 8 implies #[trigger] u[c + k] == lit8()[k] by {
+        if k < avail { assert(u[c + k] == s[c + k]); if k < 7 { assert(s[c + k] == http1_lit()[k]); } }
+        else { assert(u[c + k] == t[k - avail]); assert(t[k - avail] == lit8().subrange(avail, 8)[k - avail]); }
+    }
+    assert(agrees_lit(u, c, 7)) by { assert forall|k: int| 0 <= k < 7 implies #[trigger] u[c + k] == http1_lit()[k] by { assert(u[c + k] == lit8()[k]); } }
+    assert(u[c + 7] == lit8()[7]);
+    assert(u.subrange(c + 8, u.len() as int) =~= r_sp_code());
+}
+pub open spec fn comp_code(s: Seq<u8>, c: int) -> Seq<u8> {
+    let k = s.len() - c;
+    if k <= 0 { seq![0x30u8, 0x30, 0x30] + crlf_crlf() } else if k == 1 { seq![0x30u8, 0x30] + crlf_crlf() } else { seq![0x30u8] + crlf_crlf() }
+}
+pub proof fn lemma_code_completable(s: Seq<u8>, c: int)
+    requires 0 <= c <= s.len(), spec_code(s, c) is Partial,
+    ensures spec_code(s + comp_code(s, c), c) is Complete, spec_code(s + comp_code(s, c), c)->Complete_1 == c + 3, tail_is(s + comp_code(s, c), c + 3, crlf_crlf()),
+{
+    let t = comp_code(s, c);
+    let u = s + t;
+    let k = s.len() - c;
+    lemma_append_index(s, t);
+    if k == 0 { assert(u[c] == t[0] && u[c + 1] == t[1] && u[c + 2] == t[2]); }
+    else if k == 1 { assert(u[c] == s[c] && u[c + 1] == t[0] && u[c + 2] == t[1]); }
+    else { assert(k == 2); assert(u[c] == s[c] && u[c + 1] == s[c + 1] && u[c + 2] == t[0]); }
+    assert(u.subrange(c + 3, u.len() as int) =~= crlf_crlf());
+}
+pub open spec fn comp_after_code(s: Seq<u8>, i: int, multi: bool) -> Seq<u8> {
+    if i >= s.len() { crlf_crlf() }
+    else if s[i] == 0x20 {
+        let c = if multi { first_not(cls_sp(), s, i + 1) } else { i + 1 };
+        if c >= s.len() { crlf_crlf() }
+        else if first_not(cls_reason(), s, c) >= s.len() { crlf_crlf() } else { lf_crlf() }
+    }
+    else { lf_crlf() }
+}
+pub proof fn lemma_after_code_completable(s: Seq<u8>, i: int, multi: bool)
+    requires 0 <= i <= s.len(), spec_after_code(s, i, multi) is Partial,
+    ensures spec_after_code(s + comp_after_code(s, i, multi), i, multi) matches SRes::Complete(_, k) && tail_is(s + comp_after_code(s, i, multi), k, crlf()),
+{
+    let t = comp_after_code(s, i, multi);
+    let u = s + t;
+    lemma_append_index(s, t);
+    if i >= s.len() {
+        assert(u[i] == t[0] && u[i + 1] == t[1]);
+        assert(u.subrange(i + 2, u.len() as int) =~= crlf());
+    } else {
+        assert(u[i] == s[i]);
+        if s[i] == 0x20 {
+            if multi { lemma_first_not_props(cls_sp(), s, i + 1); }
+            let c = if multi { first_not(cls_sp(), s, i + 1) } else { i + 1 };
+            if c >= s.len() {
+                // nothing (but SP) after the SP: an empty reason, then the line end
+                if multi { lemma_run_then_stop(cls_sp(), s, t, i + 1); }
+                let l = s.len() as int;
+                assert(u[l] == t[0] && u[l + 1] == t[1]);
+                lemma_first_not_char(cls_reason(), u, l, l);
+                assert(u.subrange(l + 2, u.len() as int) =~= crlf());
+                assert(!has_obs(u, l, l));
+            } else {
+                if multi { lemma_first_not_append(cls_sp(), s, t, i + 1); }
+                lemma_first_not_props(cls_reason(), s, c);
+                let j = first_not(cls_reason(), s, c);
+                if j >= s.len() {
+                    lemma_run_then_stop(cls_reason(), s, t, c);
+                    let l = s.len() as int;
+                    assert(u[l] == t[0] && u[l + 1] == t[1]);
+                    assert(u.subrange(l + 2, u.len() as int) =~= crlf());
+                } else {
+                    lemma_first_not_append(cls_reason(), s, t, c);
+                    assert(u[j] == s[j]);
+                    assert(u[j + 1] == t[0]);
+                    assert(u.subrange(j + 2, u.len() as int) =~= crlf());
+                }
+            }
+        } else {
+            assert(u[i + 1] == t[0]);
+            assert(u.subrange(i + 2, u.len() as int) =~= crlf());
+        }
+    }
+}
+
+pub open spec fn comp_response(s: Seq<u8>, multi: bool, san: bool, fold: bool, sbf: bool, ign: bool, cap: int) -> Seq<u8> {
+    match spec_empty_lines(s, 0) {
+        SRes::Complete(_, c0) => match spec_version(s, c0) {
+            SRes::Complete(v, c1) => match one_sp(s, c1, Error::Version) {
+                SRes::Complete(_, c2) => match opt_spaces(multi, s, c2) {
+                    SRes::Complete(_, c3) => match spec_code(s, c3) {
+                        SRes::Complete(code, c4) => match spec_after_code(s, c4, multi) {
+                            SRes::Complete(rs, c5) => comp_hdrs(s, c5, Seq::empty(), resp_hcfg(san, fold, sbf, ign), cap),
+                            _ => comp_after_code(s, c4, multi),
+                        },
+                        _ => comp_code(s, c3),
+                    },
+                    _ => r_code(),
+                },
+                _ => r_sp_code(),
+            },
+            _ => comp_ver_r(s, c0),
+        },
+        _ => comp_el_r(s, 0),
+    }
+}
+// the only exception for responses: header capacity already full and a further header line open
+pub open spec fn resp_exception(s: Seq<u8>, multi: bool, san: bool, fold: bool, sbf: bool, ign: bool, cap: int) -> bool {
+    match spec_empty_lines(s, 0) {
+        SRes::Complete(_, c0) => match spec_version(s, c0) {
+            SRes::Complete(v, c1) => match one_sp(s, c1, Error::Version) {
+                SRes::Complete(_, c2) => match opt_spaces(multi, s, c2) {
+                    SRes::Complete(_, c3) => match spec_code(s, c3) {
+                        SRes::Complete(code, c4) => match spec_after_code(s, c4, multi) {
+                            SRes::Complete(rs, c5) => full_and_open(s, c5, Seq::empty(), resp_hcfg(san, fold, sbf, ign), cap),
+                            _ => false,
+                        },
+                        _ => false,
+                    },
+                    _ => false,
+                },
+                _ => false,
+            },
+            _ => false,
+        },
+        _ => false,
+    }
+}
+pub proof fn lemma_respc_el(s: Seq<u8>, multi: bool, san: bool, fold: bool, sbf: bool, ign: bool, cap: int)
+    requires spec_empty_lines(s, 0) is Partial,
+    ensures spec_response(s + comp_el_r(s, 0), multi, san, fold, sbf, ign, cap).res is Complete
+{
+    let u = s + comp_el_r(s, 0);
+    let cfg = resp_hcfg(san, fold, sbf, ign);
+    lemma_el_r_completable(s, 0);
+    let k = spec_empty_lines(u, 0)->Complete_1;
+    lemma_rtail_all(u, k);
+    lemma_rtail_sp_code(u, k + 8);
+    lemma_rtail_chain(u, k + 9, multi, cfg, cap);
+}
+pub proof fn lemma_respc_ver(s: Seq<u8>, multi: bool, san: bool, fold: bool, sbf: bool, ign: bool, cap: int, c0: int)
+    requires at(spec_empty_lines(s, 0), c0), spec_version(s, c0) is Partial,
+    ensures spec_response(s + comp_ver_r(s, c0), multi, san, fold, sbf, ign, cap).res is Complete
+{
+    let t = comp_ver_r(s, c0);
+    let u = s + t;
+    let cfg = resp_hcfg(san, fold, sbf, ign);
+    lemma_empty_lines_bounds(s, 0);
+    lemma_empty_lines_stable(s, t, 0);
+    lemma_ver_r_completable(s, c0);
+    lemma_rtail_sp_code(u, c0 + 8);
+    lemma_rtail_chain(u, c0 + 9, multi, cfg, cap);
+}
+pub proof fn lemma_respc_sp(s: Seq<u8>, multi: bool, san: bool, fold: bool, sbf: bool, ign: bool, cap: int, c0: int, v: u8, c1: int)
+    requires at(spec_empty_lines(s, 0), c0), spec_version(s, c0) == SRes::Complete(v, c1), one_sp(s, c1, Error::Version) is Partial,
+    ensures spec_response(s + r_sp_code(), multi, san, fold, sbf, ign, cap).res is Complete
+{
+    let t = r_sp_code();
+    let u = s + t;
+    let cfg = resp_hcfg(san, fold, sbf, ign);
+    lemma_append_index(s, t);
+    lemma_empty_lines_bounds(s, 0);
+    lemma_empty_lines_stable(s, t, 0);
+    lemma_version_stable(s, t, c0);
+    assert(c1 >= s.len());
+    assert(u.subrange(s.len() as int, u.len() as int) =~= r_sp_code());
+    lemma_rtail_sp_code(u, c1);
+    lemma_rtail_chain(u, c1 + 1, multi, cfg, cap);
+}
+pub proof fn lemma_respc_sp2(s: Seq<u8>, san: bool, fold: bool, sbf: bool, ign: bool, cap: int, c0: int, v: u8, c1: int, c2: int)
+    requires at(spec_empty_lines(s, 0), c0), spec_version(s, c0) == SRes::Complete(v, c1), at(one_sp(s, c1, Error::Version), c2), spec_spaces(s, c2) is Partial,
+    ensures spec_response(s + r_code(), true, san, fold, sbf, ign, cap).res is Complete
+{
+    let t = r_code();
+    let u = s + t;
+    let cfg = resp_hcfg(san, fold, sbf, ign);
+    lemma_append_index(s, t);
+    lemma_empty_lines_bounds(s, 0);
+    lemma_empty_lines_stable(s, t, 0);
+    lemma_version_stable(s, t, c0);
+    assert(u[c1] == s[c1]);
+    lemma_first_not_props(cls_sp(), s, c2);
+    assert(t[0] == 0x32);
+    lemma_run_then_stop(cls_sp(), s, t, c2);
+    assert(u.subrange(s.len() as int, u.len() as int) =~= r_code());
+    lemma_rtail_chain(u, s.len() as int, true, cfg, cap);
+    assert(spec_spaces(u, c2) == SRes::Complete((), s.len() as int));
+}
+pub proof fn lemma_respc_code(s: Seq<u8>, multi: bool, san: bool, fold: bool, sbf: bool, ign: bool, cap: int, c0: int, v: u8, c1: int, c2: int, c3: int)
+    requires at(spec_empty_lines(s, 0), c0), spec_version(s, c0) == SRes::Complete(v, c1), at(one_sp(s, c1, Error::Version), c2), at(opt_spaces(multi, s, c2), c3),
+        spec_code(s, c3) is Partial,
+    ensures spec_response(s + comp_code(s, c3), multi, san, fold, sbf, ign, cap).res is Complete
+{
+    let t = comp_code(s, c3);
+    let u = s + t;
+    let cfg = resp_hcfg(san, fold, sbf, ign);
+    lemma_append_index(s, t);
+    lemma_empty_lines_bounds(s, 0);
+    lemma_empty_lines_stable(s, t, 0);
+    lemma_version_stable(s, t, c0);
+    assert(u[c1] == s[c1]);
+    if multi { lemma_first_not_props(cls_sp(), s, c2); lemma_spaces_stable(s, t, c2); }
+    lemma_code_completable(s, c3);
+    lemma_rtail_after_code(u, c3 + 3, multi, cfg, cap);
+}
+pub proof fn lemma_respc_after(s: Seq<u8>, multi: bool, san: bool, fold: bool, sbf: bool, ign: bool, cap: int, c0: int, v: u8, c1: int, c2: int, c3: int, code: u16, c4: int)
+    requires at(spec_empty_lines(s, 0), c0), spec_version(s, c0) == SRes::Complete(v, c1), at(one_sp(s, c1, Error::Version), c2), at(opt_spaces(multi, s, c2), c3),
+        spec_code(s, c3) == SRes::Complete(code, c4), spec_after_code(s, c4, multi) is Partial,
+    ensures spec_response(s + comp_after_code(s, c4, multi), multi, san, fold, sbf, ign, cap).res is Complete
+{
+    let t = comp_after_code(s, c4, multi);
+    let u = s + t;
+    let cfg = resp_hcfg(san, fold, sbf, ign);
+    lemma_append_index(s, t);
+    lemma_empty_lines_bounds(s, 0);
+    lemma_empty_lines_stable(s, t, 0);
+    lemma_version_stable(s, t, c0);
+    assert(u[c1] == s[c1]);
+    if multi { lemma_first_not_props(cls_sp(), s, c2); lemma_spaces_stable(s, t, c2); }
+    lemma_code_stable(s, t, c3);
+    lemma_after_code_completable(s, c4, multi);
+    let k = spec_after_code(u, c4, multi)->Complete_1;
+    lemma_tail_hdrs(u, k, cfg, cap);
+}
+pub proof fn lemma_respc_hdrs(s: Seq<u8>, multi: bool, san: bool, fold: bool, sbf: bool, ign: bool, cap: int, c0: int, v: u8, c1: int, c2: int, c3: int, code: u16, c4: int, rs: (int, int, bool), c5: int)
+    requires at(spec_empty_lines(s, 0), c0), spec_version(s, c0) == SRes::Complete(v, c1), at(one_sp(s, c1, Error::Version), c2), at(opt_spaces(multi, s, c2), c3),
+        spec_code(s, c3) == SRes::Complete(code, c4), spec_after_code(s, c4, multi) == SRes::Complete(rs, c5),
+        spec_hdrs(s, c5, Seq::empty(), resp_hcfg(san, fold, sbf, ign), cap) is Partial, !full_and_open(s, c5, Seq::empty(), resp_hcfg(san, fold, sbf, ign), cap),
+    ensures spec_response(s + comp_hdrs(s, c5, Seq::empty(), resp_hcfg(san, fold, sbf, ign), cap), multi, san, fold, sbf, ign, cap).res is Complete
+{
+    let cfg = resp_hcfg(san, fold, sbf, ign);
+    let t = comp_hdrs(s, c5, Seq::empty(), cfg, cap);
+    let u = s + t;
+    lemma_append_index(s, t);
+    lemma_empty_lines_bounds(s, 0);
+    lemma_empty_lines_stable(s, t, 0);
+    lemma_version_stable(s, t, c0);
+    assert(u[c1] == s[c1]);
+    if multi { lemma_first_not_props(cls_sp(), s, c2); lemma_spaces_stable(s, t, c2); }
+    lemma_code_stable(s, t, c3);
+    lemma_after_code_bounds(s, c4, multi);
+    lemma_after_code_stable(s, t, c4, multi);
+    lemma_hdrs_completable(s, c5, Seq::empty(), cfg, cap);
+}
+// @tags C11
+pub proof fn lemma_response_completable(s: Seq<u8>, multi: bool, san: bool, fold: bool, sbf: bool, ign: bool, cap: int)
+    requires spec_response(s, multi, san, fold, sbf, ign, cap).res is Partial, !resp_exception(s, multi, san, fold, sbf, ign, cap),
+    ensures spec_response(s + comp_response(s, multi, san, fold, sbf, ign, cap), multi, san, fold, sbf, ign, cap).res is Complete
+{
+    match spec_empty_lines(s, 0) {
+        SRes::Complete(_, c0) => match spec_version(s, c0) {
+            SRes::Complete(v, c1) => match one_sp(s, c1, Error::Version) {
+                SRes::Complete(_, c2) => match opt_spaces(multi, s, c2) {
+                    SRes::Complete(_, c3) => match spec_code(s, c3) {
+                        SRes::Complete(code, c4) => match spec_after_code(s, c4, multi) {
+                            SRes::Complete(rs, c5) => { lemma_respc_hdrs(s, multi, san, fold, sbf, ign, cap, c0, v, c1, c2, c3, code, c4, rs, c5); }
+                            _ => { lemma_respc_after(s, multi, san, fold, sbf, ign, cap, c0, v, c1, c2, c3, code, c4); }
+                        },
+                        _ => { lemma_respc_code(s, multi, san, fold, sbf, ign, cap, c0, v, c1, c2, c3); }
+                    },
+                    _ => { lemma_respc_sp2(s, san, fold, sbf, ign, cap, c0, v, c1, c2); }
+                },
+                _ => { lemma_respc_sp(s, multi, san, fold, sbf, ign, cap, c0, v, c1); }
+            },
+            _ => { lemma_respc_ver(s, multi, san, fold, sbf, ign, cap, c0); }
+        },
+        _ => { lemma_respc_el(s, multi, san, fold, sbf, ign, cap); }
+    }
+}
